@@ -63,7 +63,11 @@ partial def loop (h : IO.FS.Stream) (s : S) : IO Unit := do
   | ["iroas", loc, sc, cost, qA, qU, thr] =>
     let r := iroasFixed (fbits loc) (fbits sc) (fbits cost) (fbits qA) (optF qU) (fun z => z) (fbits thr)
     IO.println (showL [r.estimate, r.lower] ++ " " ++ showO r.upper ++ " " ++ showL [r.precision, 1 - r.probability,
-      r.incrementalCost, r.incrementalResponse, r.incrementalResponseLower] ++ " " ++ showO r.incrementalResponseUpper)
+      r.incrementalCost, r.incrementalResponse, r.incrementalResponseLower] ++ " " ++
+      -- `none` stands for +∞ (one-tailed upper bound); times a negative cost that is −∞ in the report
+      (match r.incrementalResponseUpper with
+       | none => if r.incrementalCost < 0 then "-inf" else "inf"
+       | some v => sbits v))
     loop h s
   | ["tests", nT, tqS, minC, bbB, dwLo, dwHi] =>
     let nT := nT.toNat?.getD 1
